@@ -808,6 +808,17 @@ impl Inner {
     fn process_channel_message(&mut self, channel_id: u16, message: IoLoopMessage) -> Result<()> {
         match message {
             IoLoopMessage::ConnectionClose(buf) => {
+                // Whatever the channels submitted before this close was requested goes out
+                // before it. Their queues may not have been looked at yet: they come later
+                // in this batch of events, or they are not polled at all at the moment
+                // (deregistered while the buffered writes are above the high-water mark).
+                let mut channel_ids: Vec<u16> = self.chan_slots.iter().map(|(id, _)| *id).collect();
+                channel_ids.sort_unstable();
+                for id in channel_ids {
+                    while let Some(Ok(message)) = self.chan_slots.get(id).map(|slot| slot.rx.try_recv()) {
+                        self.process_channel_message(id, message)?;
+                    }
+                }
                 self.outbuf.append(buf);
                 self.seal_writes();
             }
